@@ -264,7 +264,9 @@ static const char *vh_step(const vh_step_t *st, vh_sb *ret, vh_sb *state) {
         if (SPIF_SOCKET_ISNULL(S[x])) return "new_from_urls=NULL";
     } else if (OP("open")) {
         x = slot_of(st->args[0]); out = st->args[1];
-        if (x == 0) unlink(sockpath);
+        /* a listener that holds no descriptor will bind a new socket: clear the path.  One that still holds the descriptor
+         * of an earlier open (failed in bind/listen, or successful) must go on with that descriptor: the path stays. */
+        if (x == 0 && S[0]->fd < 0) unlink(sockpath);
         if (!strcmp(out, "socket")) inj_socket = 1;
         else if (!strcmp(out, "bind")) inj_bind = 1;
         else if (!strcmp(out, "listen")) inj_listen = 1;
